@@ -200,6 +200,8 @@ def main():
         dims_fn = (getattr(mod, "DIMS", None) or {}).get(spec["func"])
         if dims_fn is not None:
             h.DIMS_NOW = dims_fn(h.P)
+            sl = (spec.get("part") or {}).get("islice")
+            h.ISLICE = tuple(sl) if sl else None
         if not getattr(mod, "NO_FAST_PATHS", False):
             from kit import fast
             fast.install()
